@@ -419,10 +419,22 @@ func c12KRun(c *vcore.Ctx) *vcore.Violation {
 		}
 		extra := []*os.File{rv.announceW, rv.releaseR, pidW}
 		var res runner.Result
+		// containers: the callback may be asked for after the exec (then the program already runs, and may
+		// have built its tree, when the caller refuses)
+		syncAfter := strings.HasPrefix(kind, "container") && src.Bool(1, 2, "sync_after_exec")
+		if syncAfter {
+			c.Event("sync_after_exec")
+		}
 		var topPid int
 		sync := func(pid int) error {
 			topPid = pid
+			if syncAfter {
+				topPid = 0 // (the init's pid, not the program's)
+			}
 			if shape == "sync_refused" {
+				if syncAfter {
+					time.Sleep(60 * time.Millisecond) // the tree is up by now
+				}
 				topPid = 0
 				return fmt.Errorf("refused by caller") // e.g. a failed cgroup attach
 			}
@@ -458,10 +470,10 @@ func c12KRun(c *vcore.Ctx) *vcore.Violation {
 				if err != nil {
 					vcore.Harnessf("container build: %v", err)
 				}
-				res, _ = k2.exec(ctx, &kExec{script: script, extra: extra, syncFunc: sync})
+				res, _ = k2.exec(ctx, &kExec{script: script, extra: extra, syncFunc: sync, syncAfter: syncAfter})
 				k2.destroy()
 			default:
-				res, _ = ct.exec(ctx, &kExec{script: script, extra: extra, syncFunc: sync})
+				res, _ = ct.exec(ctx, &kExec{script: script, extra: extra, syncFunc: sync, syncAfter: syncAfter})
 			}
 		})
 		cancel()
@@ -542,6 +554,28 @@ func c12KRun(c *vcore.Ctx) *vcore.Violation {
 			}
 		}
 		pidR.Close()
+		if kind == "container" && ct != nil {
+			// when the call has returned, the container init has no children left: neither processes of the
+			// program nor their zombies (it kills and reaps everything before it answers)
+			ip := containerInitPid(ct)
+			var kids []int
+			for k := 0; k < 60; k++ {
+				if kids = descendantsDirect(ip); len(kids) == 0 {
+					break
+				}
+				time.Sleep(5 * time.Millisecond)
+			}
+			if len(kids) > 0 {
+				var z []string
+				for _, p := range kids {
+					st, _ := os.ReadFile(fmt.Sprintf("/proc/%d/stat", p))
+					if f := strings.Fields(string(st)); len(f) > 2 {
+						z = append(z, f[0]+f[1]+f[2])
+					}
+				}
+				return vcore.Violate(prop, "init_child_left", kind+"/"+shape, "after the run returned (%s, sync after exec=%v) the container init still has children: %v", statusName(res.Status), syncAfter, z)
+			}
+		}
 		if topPid > 0 && kind == "unshare" {
 			for k := 0; k < 200 && pidAlive(topPid); k++ {
 				time.Sleep(time.Millisecond)
